@@ -372,6 +372,31 @@ read_file(econf_file *ef, const char *file,
     while (*name && isspace((unsigned)*name))
       name++;
 
+    if (!*name)
+      continue; /* line consists of blanks only */
+
+    if (strchr(comment, *name) != NULL)
+    {
+      /* The first non-blank character is a comment character: the whole
+	 line is a comment which belongs to the next key/value line,
+	 whatever else it contains. */
+      if (current_comment_before_key)
+      {
+	/* appending */
+	char *content = current_comment_before_key;
+	int ret = asprintf(&current_comment_before_key, "%s\n%s", content,
+			   name+1);
+	if(ret<0) {
+	  free(buf);
+	  return ECONF_NOMEM;
+	}
+	free(content);
+      } else {
+	current_comment_before_key = strdup(name+1);
+      }
+      continue;
+    }
+
     /* go through all comment characters and check if one of them could be found */
     for (size_t i = 0; i < strlen(comment); i++) {
       p = strrchr(name, comment[i]);
